@@ -25,6 +25,7 @@ fn main() {
     let mut replay: Option<String> = None;
     let mut sub: Option<String> = None;
     let mut write_evidence = true;
+    let mut cold: Option<usize> = None;
     let mut i = 1;
     while i < args.len() {
         match args[i].as_str() {
@@ -58,6 +59,11 @@ fn main() {
                 sub = Some(args.get(i).cloned().unwrap_or_else(|| usage()));
             }
             "--no-evidence" => write_evidence = false,
+            "--cold" => {
+                i += 1;
+                cold = Some(args.get(i).and_then(|s| s.parse::<usize>().ok()).unwrap_or_else(|| usage()));
+                write_evidence = false;
+            }
             _ => usage(),
         }
         i += 1;
@@ -65,6 +71,24 @@ fn main() {
     let _ = tier_forced;
 
     engine::install_panic_hook();
+    // ckc-rs depends on the `log` facade: the run in the second build profile (and every other
+    // cold-start child) is made with a logger installed at Trace level, the primary run without
+    // one, so that code guarded by log_enabled!(..) is executed in one of the two configurations
+    if sub.is_some() || cold.map(|k| k % 2 == 1).unwrap_or(false) {
+        struct Discard;
+        impl log::Log for Discard {
+            fn enabled(&self, _: &log::Metadata) -> bool {
+                true
+            }
+            fn log(&self, r: &log::Record) {
+                std::hint::black_box(r.args().to_string().len());
+            }
+            fn flush(&self) {}
+        }
+        static DISCARD: Discard = Discard;
+        let _ = log::set_logger(&DISCARD);
+        log::set_max_level(log::LevelFilter::Trace);
+    }
 
     // watchdog: a run that does not finish is inconclusive, never a violation
     let budget_s: u64 = std::env::var("VERIF_WATCHDOG_S").ok().and_then(|s| s.parse().ok()).unwrap_or(match tier {
@@ -144,8 +168,16 @@ fn main() {
     let mut run = Run::new(&id, tier, seed);
     run.sub = sub;
     run.write_evidence = write_evidence;
+    run.cold = cold;
     let r = std::panic::catch_unwind(std::panic::AssertUnwindSafe(|| {
+        if run.sub.is_none() && run.cold.is_none() && std::env::var("VERIF_SINGLE_PROFILE").is_err() {
+            run.cold_children()?;
+        }
         (prop.run)(&mut run)?;
+        if run.cold.is_some() {
+            println!("COLDRESULT none");
+            return Ok(());
+        }
         if run.sub.is_none() && std::env::var("VERIF_SINGLE_PROFILE").is_err() {
             // every property is also exercised in the other build profile
             run.run_twin()?;
